@@ -1,17 +1,118 @@
-(* C02 — lexical scoping — PLACEHOLDER written by work package "ref" (Python side: generators, reference
-   interpreter, property module).  The theorems of this property are written by the
-   integrator and REPLACE this file; the single statement below only shows that the
-   executable model evaluates one tiny session of wire interface 70 to the expected
-   canonical line, so that `./check C02` can run its correspondence part.
-   DESIGN.md section 5 C02 lists the intended theorems (free_symbols_complete, envmap_chain, location_invariant, C02_refuted_qq). *)
-From Coq Require Import NArith List.
-From MW Require Import Model.Base Model.Wire.
-Import ListNotations.
+(* C02 — lexical scoping: innermost binding wins, closures share mutable locations.
+   Statements only (proofs: Proofs/ScopeProofs.v).  Model: Model/Compile.v
+   (environment.rs:94-135 EnvironmentMap::new_from_iof, lambda.rs:118-126
+   binding_location) and Model/Vm.v (run.rs:394-437 slot loads/stores, 518-578
+   closure/activation environments).  Symbols are interned heap pointers (C18).
+
+   Compile time.  A lambda [l] is built from its immediately enclosing lambda [iof]
+   with formals [args], internally defined names [internal] and the reported free
+   symbols [free].  The four theorems below say that a name denotes, in this order:
+   its own parameter — the first of that name —, else an internal definition of this
+   body, else the binding the ENCLOSING lambda resolves lexically (by induction over
+   the nesting: the innermost enclosing binder), else the global.                 *)
+From MW Require Import Model.Base Model.Datum Model.VmTypes Model.Heap Model.VmBase Model.Compile Model.Vm
+  Proofs.ScopeProofs.
 Open Scope N_scope.
 
-(* session ((lambda (x) ((lambda (x) x) 2)) 1)  ==>  "SESSION | OK 2 LOG" *)
-Theorem C02_placeholder_innermost_wins_once :
-  run_case [70;1;35;40;40;108;97;109;98;100;97;32;40;120;41;32;40;40;108;97;109;98;100;97;32;40;120;41;32;120;41;32;50;41;41;32;49;41]
-  = [83;69;83;83;73;79;78;32;124;32;79;75;32;50;32;76;79;71].
-Proof. vm_compute. reflexivity. Qed.
-Print Assumptions C02_placeholder_innermost_wins_once.
+Theorem C02_own_parameter_wins : forall args internal free iof vararg sym i,
+  fidx (sym_is sym) args = Some i ->
+  binding_location (lambda_from_iof args internal iof free vararg) sym = LEnvironment i /\
+  exists a, nth_error args (N.to_nat i) = Some a /\
+            nth_error (l_envmap (lambda_from_iof args internal iof free vararg)) (N.to_nat i)
+            = Some (a, BArgument i).
+Proof. exact resolve_own_parameter. Qed.
+Print Assumptions C02_own_parameter_wins.
+
+Theorem C02_internal_definition_next : forall args internal free iof vararg sym j,
+  fidx (sym_is sym) args = None ->
+  fidx (sym_is sym) internal = Some j ->
+  binding_location (lambda_from_iof args internal iof free vararg) sym = LEnvironment (len args + j) /\
+  exists a, nth_error internal (N.to_nat j) = Some a /\
+            nth_error (l_envmap (lambda_from_iof args internal iof free vararg)) (N.to_nat (len args + j))
+            = Some (a, BInternalDefinition).
+Proof. exact resolve_internal_definition. Qed.
+Print Assumptions C02_internal_definition_next.
+
+Theorem C02_enclosing_binding_or_global : forall args internal free iof vararg sym,
+  fidx (sym_is sym) args = None ->
+  fidx (sym_is sym) internal = None ->
+  match fidx (is_sym sym) (free_part iof free) with
+  | Some k =>
+      binding_location (lambda_from_iof args internal iof free vararg) sym
+        = LEnvironment (len args + len internal + k) /\
+      exists e, nth_error (free_part iof free) (N.to_nat k) = Some e /\ fst e = sym /\
+        ((exists slot, envmap_slot (l_envmap iof) sym = Some slot /\ snd e = BIofEnvironment slot) \/
+         (envmap_slot (l_envmap iof) sym = None /\
+          exists n, fidx (sym_is sym) (l_args iof) = Some n /\ snd e = BIofArgument n))
+  | None => binding_location (lambda_from_iof args internal iof free vararg) sym = LGlobal
+  end.
+Proof. exact resolve_captured. Qed.
+Print Assumptions C02_enclosing_binding_or_global.
+
+(* a reported free symbol that the enclosing lambda resolves lexically IS captured
+   (never silently global) — the completeness of the free-symbol REPORT itself is the
+   quasiquote finding (C02 qq-free-var) and otherwise tied by the correspondence *)
+Theorem C02_captured_if_reported : forall args internal free iof vararg sym,
+  fidx (sym_is sym) args = None -> fidx (sym_is sym) internal = None ->
+  In sym free -> (exists p, sym = VPtr p) ->
+  (envmap_slot (l_envmap iof) sym <> None \/ fidx (sym_is sym) (l_args iof) <> None) ->
+  exists k, binding_location (lambda_from_iof args internal iof free vararg) sym = LEnvironment k.
+Proof. exact captured_if_reported. Qed.
+Print Assumptions C02_captured_if_reported.
+
+(* Run time.  CLOSURE fills each slot of the new closure environment from its source:
+   a variable captured from the creating activation's environment becomes a POINTER
+   to the location that variable denotes there (an existing pointer is copied flat, a
+   direct cell is pointed to), so closure and activation share one location. *)
+Theorem C02_closure_environment_slots : forall envmap s r s',
+  build_closure_environment envmap s = ROk r s' ->
+  s' = s /\ Forall2 (fun e v => closure_slot s (snd e) v) envmap r.
+Proof. exact closure_environment_slots. Qed.
+Print Assumptions C02_closure_environment_slots.
+
+Theorem C02_closure_shares_location : forall s j cur eid l,
+  env_at s (ep s) = Some (eid, l) -> list_get l j = Some cur ->
+  forall v, v = match cur with VLexPtr _ _ => cur | _ => VLexPtr (ep s) j end ->
+  match v with
+  | VLexPtr q k2 => match env_at s q with Some (e2, _) => Some (e2, k2) | None => None end
+  | _ => None
+  end = location s (ep s) j.
+Proof. exact closure_shares_location. Qed.
+Print Assumptions C02_closure_shares_location.
+
+(* a reference reads, and an assignment writes, exactly the location the slot
+   denotes; hence an assignment through one name is seen through every other name
+   of the same location (inner closures, the creating activation, later calls) *)
+Theorem C02_load_reads_location : forall s k e j l v,
+  location s (ep s) k = Some (e, j) ->
+  tget (envs (st s)) e = Some l -> list_get l j = Some v ->
+  load_lex_slot k s = ROk v s.
+Proof. exact load_reads_location. Qed.
+Print Assumptions C02_load_reads_location.
+
+Theorem C02_store_writes_location : forall s k e j l v,
+  location s (ep s) k = Some (e, j) ->
+  tget (envs (st s)) e = Some l -> j < len l ->
+  store_lex_slot k v s = ROk tt (with_store s (set_env (st s) e (list_set l j v))).
+Proof. exact store_writes_location. Qed.
+Print Assumptions C02_store_writes_location.
+
+Theorem C02_shared_location_visible : forall s k v e j l s1 k',
+  location s (ep s) k = Some (e, j) ->
+  tget (envs (st s)) e = Some l -> j < len l ->
+  store_lex_slot k v s = ROk tt s1 ->
+  location s1 (ep s1) k' = Some (e, j) ->
+  load_lex_slot k' s1 = ROk v s1.
+Proof. exact shared_location_visible. Qed.
+Print Assumptions C02_shared_location_visible.
+
+(* OPEN (kept visible): separate activations get separate locations and a binding
+   outlives its creator follow from ENTER allocating a fresh environment object per
+   activation on the heap (Model/Vm.v enter_frame; Proofs/TailProofs.v
+   enter_frame_effect shows the stack side); the whole-machine invariant that makes
+   every LexPtr lead to a non-pointer cell is stated but not proved here. *)
+Definition C02_locations_flat_stmt : Prop :=
+  forall (s : vm) p k q k2 eid l,
+    env_at s p = Some (eid, l) -> list_get l k = Some (VLexPtr q k2) ->
+    exists e2 l2 v, env_at s q = Some (e2, l2) /\ list_get l2 k2 = Some v /\
+                    match v with VLexPtr _ _ => False | _ => True end.
